@@ -22,3 +22,4 @@ from . import flows  # noqa: E402,F401
 from . import streams  # noqa: E402,F401
 from . import decode  # noqa: E402,F401
 from . import serialize_generic  # noqa: E402,F401
+from . import roundtrip  # noqa: E402,F401
